@@ -27,6 +27,7 @@ def ck_cfgs(ctx, n):
     out.insert(0, dict(base, sample_kwargs=dict(adaptive=True, max_n_steps=6, target_efficiency=0.5)))        # rescaled min_step
     out.insert(0, dict(base, sample_kwargs=dict(adaptive=True, max_n_steps=2, min_step=0.1)))                  # stops at the cap
     out.insert(0, dict(base, kind="minipcn_smc", sample_kwargs=dict(adaptive=True, n_final_samples=24)))
+    out.insert(0, dict(base, kind="minipcn_smc", n_final_steps=3, sample_kwargs=dict(adaptive=True, n_final_samples=20)))   # own kernel steps for the final stage
     return out[:n]
 
 
